@@ -105,18 +105,22 @@ def lane_corpus(prop, tier, seed, jobs, params):
     externs = _externs()
     if externs is None:
         return dict(lane=lane, violations=[], inconclusive=["happylock rlib not found under " + DEPS])
-    pdir = os.path.join(CORPUS, prop)
-    routes = sorted(d for d in os.listdir(pdir) if os.path.isdir(os.path.join(pdir, d))) if os.path.isdir(pdir) else []
+    dirs = params.get("dirs") or [prop]
+    routes = []
+    for dname in dirs:
+        pd = os.path.join(CORPUS, dname)
+        if os.path.isdir(pd):
+            routes += sorted(os.path.join(dname, d) for d in os.listdir(pd) if os.path.isdir(os.path.join(pd, d)))
     os.makedirs(BUILD, exist_ok=True)
     counters = dict(routes=len(routes), bad_rejected_as_expected=0, bad_compiled=0, twins_ran_clean=0, executed_under_miri=0)
     violations, inconclusive, samples = [], [], []
 
     def one(route):
-        d = os.path.join(pdir, route)
+        d = os.path.join(CORPUS, route)
         exp = json.load(open(os.path.join(d, "expect.json")))
         bad, twin = os.path.join(d, "bad.rs"), os.path.join(d, "twin.rs")
-        out_bad = os.path.join(BUILD, "%s_%s_bad" % (prop, route))
-        out_twin = os.path.join(BUILD, "%s_%s_twin" % (prop, route))
+        out_bad = os.path.join(BUILD, "%s_%s_bad" % (prop, route.replace("/", "_")))
+        out_twin = os.path.join(BUILD, "%s_%s_twin" % (prop, route.replace("/", "_")))
         ok_bad, err_bad = _rustc(bad, out_bad, externs)
         ok_twin, err_twin = _rustc(twin, out_twin, externs)
         res = dict(route=route, note=exp.get("note", ""))
@@ -138,7 +142,7 @@ def lane_corpus(prop, tier, seed, jobs, params):
             res["verdict"] = "violated"
             res["run"] = dict(exit=rc, witness=witness, stdout=so[-500:], stderr=se[-500:])
             if tier == "thorough" or params.get("miri_always"):
-                mrc, mso, mse = _miri_single(bad, "%s_%s" % (prop, route))
+                mrc, mso, mse = _miri_single(bad, "%s_%s" % (prop, route.replace("/", "_")))
                 first = next((l for l in mse.splitlines() if l.startswith("error:")), "")
                 res["miri"] = dict(exit=mrc, report=first, excerpt="\n".join([l for l in mse.splitlines() if l.strip()][:25]))
             return res
@@ -171,8 +175,8 @@ def lane_corpus(prop, tier, seed, jobs, params):
             detail = "bad.rs of route '%s' is accepted by the compiler. Executed: exit=%s %s" % (r["route"], run.get("exit"), run.get("witness") or run.get("stdout", "")[-200:])
             if "miri" in r:
                 detail += " | under Miri: " + (r["miri"].get("report") or "no report (exit %s)" % r["miri"].get("exit"))
-            violations.append(dict(prop=prop, rule="escape_route_compiles", detail=detail, signature="%s:route:%s" % (prop, r["route"]),
-                                   case=os.path.join("corpus", prop, r["route"], "bad.rs"), index=0, log=[]))
+            violations.append(dict(prop=prop, rule="escape_route_compiles", detail=detail, signature="%s:route:%s" % (prop, r["route"].split("/")[-1]),
+                                   case=os.path.join("corpus", r["route"], "bad.rs"), index=0, log=[]))
             samples.append(dict(route=r["route"], verdict="violated", run=run, miri=r.get("miri")))
         else:
             inconclusive.append("route %s: %s" % (r["route"], r.get("why")))
@@ -205,7 +209,7 @@ def lane_matrix(prop, tier, seed, jobs, params):
     n, strict, interesting = 0, 0, 0
     for line in so.splitlines():
         parts = line.split("|")
-        if len(parts) == 4 and parts[0] in ("OWNED", "KEY"):
+        if len(parts) == 4 and parts[0] in ("OWNED", "KEY", "CLONE", "DEFAULT", "KEYSEND"):
             kind, ty, expected, actual = parts
             n += 1
             expected, actual = expected == "true", actual == "true"
@@ -213,12 +217,17 @@ def lane_matrix(prop, tier, seed, jobs, params):
                 interesting += 1
             props = ("C15", "C07") if kind == "OWNED" else ("C14",)
             if actual and not expected and prop in props:
-                what = ("%s implements OwnedLockable although it does not own its locks: the constructors that skip the duplicate check accept it" % ty) if kind == "OWNED" \
-                    else ("%s implements Keyable: a value that is not the thread's unique key is accepted as a key" % ty)
+                what = {
+                    "OWNED": "%s implements OwnedLockable although it does not own its locks: the constructors that skip the duplicate check accept it",
+                    "KEY": "%s implements Keyable: a value that is not the thread's unique key is accepted as a key",
+                    "CLONE": "%s implements Clone: a key / live hold can be duplicated in safe code",
+                    "DEFAULT": "%s implements Default: a key / guard can be conjured up in safe code",
+                    "KEYSEND": "%s is Send: a guard carrying the thread's key can be moved to another thread",
+                }[kind] % ty
                 violations.append(dict(prop=prop, rule="marker_trait_too_permissive", detail=what,
                                        signature="%s:matrix:%s:%s" % (prop, kind, ty), case="corpus/C15_matrix/matrix.rs", index=n, log=[]))
             elif expected and not actual:
-                inconclusive.append("matrix: %s no longer implements %s (API regression, not a property violation)" % (ty, "OwnedLockable" if kind == "OWNED" else "Keyable"))
+                inconclusive.append("matrix: %s lost an expected impl (%s) - API regression, not a property violation" % (ty, kind))
             continue
         if len(parts) != 5:
             continue
